@@ -15,7 +15,9 @@ package main
 //                     the API server answers, main does too;
 //   shutdownwaits   — Shutdown() does not come back ahead of WaitQueuesTimeout while workers are inside handlers.
 // Only one API request is ever held, and the case itself makes no cluster call while it is (the fake
-// client serialises all its calls behind a reactor).
+// client serialises all its calls behind a reactor). The cases of this family run one at a time: an informer
+// that waits for its cache sync holds the process-wide DefaultFactoryStore lock, so a second operator in the
+// same process could not start or finish a monitor of its own meanwhile.
 
 import (
 	"context"
@@ -222,7 +224,8 @@ func c17OperatorSlowAPI(r *Run, c *Case, rng *Rng) {
 	bindHook := map[*c17Bind]*c17Hook{}
 	for _, h := range hooks[:slowHook-1] {
 		for _, b := range h.binds {
-			if !b.kube {
+			// (a run of h1 hangs wherever it runs: its bindings in other named queues get no ticks, those queues are to run dry)
+			if !b.kube && !(h == hooks[0] && b.queueNo != qa && b.queueNo != 0) {
 				schedBinds = append(schedBinds, b)
 				bindHook[b] = h
 			}
